@@ -238,6 +238,13 @@ func ParseTokenParam(buf []byte, offs int, param *PTokParam,
 					// do nothing, allow empty params, just skip them
 					break
 				}
+				if c == term && term != 0 && param.state == paramFNxt {
+					// empty param(s) between the last param and the
+					// terminator (e.g. "a;,"): skip them like before the
+					// end of header
+					param.state = paramFIN
+					return i, ErrHdrOk
+				}
 				if !tokAllowedChar(c, flags) {
 					param.state = paramERR
 					return i, ErrHdrBadChar
